@@ -32,7 +32,7 @@ ASSUMPTIONS = ["pyfftw replaced by a scipy.fft stand-in (numerically equivalent 
                "workers share nothing but the output / QC files", "the batch-wise reference re-uses the repository's own per-batch building blocks (saturation, fshift, "
                "kfilt/car): it judges the batching / seek / stitch logic, not the DSP (C05, C16 do)"]
 REQUIRED = {"configs": 4, "explicit_width_configs": 3, "stale_output_checked": 4, "width_compared": 3, "workers_probed": 10, "write_rows_judged": 50000, "orders_executed": 8, "sync_columns_compared": 4, "reference_compared": 4,
-            "saturated_samples": 10, "reject_runs_with_bad_channels": 1, "custom_filter_settings": 1}
+            "saturated_samples": 10, "reject_runs_with_bad_channels": 1, "custom_filter_settings": 1, "compressed_inputs": 2}
 CASE_TIMEOUT = 400.0
 MAX_PROCS = 10
 TAPER = 1024
@@ -262,6 +262,14 @@ def run_case(case):
         if cls == "sched":
             nw = case["workers"]
             b, rec = make_recording(rng, d, ns, n, faults=case["opt"] == 6)
+            container = "bin"
+            if case["seed"] % 3 == 1:
+                # the usual production input: the compressed recording (chunk seams fall anywhere relative to batch seams), duration written with few decimals
+                from vlib import np2 as _np2
+                _np2.round_duration(b.with_suffix(".meta"), ns, rec.fs, rng)
+                b = _np2.compress_original(b, rec, chunk_duration=float(rng.choice([0.05, 0.11, 1.0])))
+                container = "cbin"
+                res.count("compressed_inputs")
             opts = options(rng, case["opt"], n)
             if case.get("ncout") == "n":
                 opts["nc_out"] = n
@@ -273,7 +281,7 @@ def run_case(case):
             ns2add = opts.get("ns2add", 0)
             total_rows = ns + ns2add
             rowbytes = nc_out * 2
-            label = f"ns={ns} nbatch={nbatch} (K={K} batches) workers={nw} n={n} opts={ {k: (v if np.isscalar(v) or isinstance(v, dict) else 'matrix') for k, v in opts.items()} }"
+            label = f"{rec.kind} {container} ns={ns} nbatch={nbatch} (K={K} batches) workers={nw} n={n} opts={ {k: (v if np.isscalar(v) or isinstance(v, dict) else 'matrix') for k, v in opts.items()} }"
             res.count("configs")
             res.count("saturated_samples", sum(e - a for a, e in rec.sat))
             chunk = int(ns / nw)
